@@ -18,7 +18,8 @@
 (***************************************************************************)
 EXTENDS Naturals, Sequences, FiniteSets, TLC
 
-CONSTANTS Fams, NModes, Powers, Spectra, Dtypes, BlockSizes
+CONSTANTS Fams, NModes, Powers, Spectra, Dtypes, BlockSizes,
+          Gaps      \* subset of {"none", "gaps"}: the fitted data has entirely missing samples and an entirely missing feature
 
 VARIABLES cfg, pred, phase
 vars == <<cfg, pred, phase>>
@@ -39,9 +40,11 @@ Admissible(c) ==
     /\ c.spectrum # "simpleStructure" => c.blocks = <<>>
 
 Init == /\ phase = "cfg" /\ pred = [clauses |-> {}]
-        /\ \E f \in Fams, n \in NModes, p \in Powers, s \in Spectra, d \in Dtypes, b \in BlockSizes \cup {<<>>} :
-              /\ cfg = [fam |-> f, nmodes |-> n, power |-> p, spectrum |-> s, dtype |-> d, blocks |-> b]
+        /\ \E f \in Fams, n \in NModes, p \in Powers, s \in Spectra, d \in Dtypes, b \in BlockSizes \cup {<<>>}, g \in Gaps :
+              /\ cfg = [fam |-> f, nmodes |-> n, power |-> p, spectrum |-> s, dtype |-> d, blocks |-> b, gaps |-> g]
               /\ Admissible(cfg)
+              \* gaps on the generic worlds of the EOF- and CPCCA-type families (no Hilbert transform across a gap)
+              /\ (g = "gaps") => (s = "separated" /\ f \notin {"HilbertEOF", "HilbertMCA"} /\ p \in {1, 2})
 Do == /\ phase = "cfg" /\ phase' = "done" /\ UNCHANGED cfg
       /\ pred' = [clauses |-> Clauses(cfg),
                   supports |-> IF cfg.spectrum = "simpleStructure"
@@ -60,6 +63,8 @@ C11_ClauseTable ==
             /\ ("unitary" \in pred.clauses) <=> (cfg.power = 1)
             /\ ("varianceConserved" \in pred.clauses) => EofType(cfg.fam)
             /\ ("varimaxNotLower" \in pred.clauses) => Real(cfg)
+\* "every fitted model": which clauses apply does not depend on gaps in the fitted data
+C11_GapsImmaterial == Done => pred.clauses = Clauses([cfg EXCEPT !.gaps = "none"])
 C11_SimpleStructureRecovered ==
     (Done /\ cfg.spectrum = "simpleStructure") =>
         \A a, b \in 1..Len(cfg.blocks) : (a # b) => pred.supports[a] \cap pred.supports[b] = {}
